@@ -25,8 +25,8 @@ RULE = (
     "of source triangles, pulled back through the first map by its reference inverse when the PWA comes second). "
     "programs: an accumulator and 1-8 steps drawn from {compose_before, compose_after, their in-place forms, "
     "compose_after_from_vector_inplace} with the operand drawn fresh, re-used from an earlier step, or the accumulator "
-    "itself; 1 program in 5 starts from Translation / Similarity (plain or alignment), composes it in place with a "
-    "wider affine-family operand and then stays in its own sub-family. decompose: any of the 11 affine-family classes "
+    "itself; 1 program in 4 starts from a proper sub-family of Affine (Translation, Similarity, Rotation, UniformScale, "
+    "plain or alignment), is first composed in place with a wider affine-family operand and then stays in its own sub-family. decompose: any of the 11 affine-family classes "
     "in 2-D/3-D. Non-trivial: grid/pairs - neither operand is the "
     "identity and the operands are two objects; programs - >= 2 executed steps of which >= 1 is an accepted in-place "
     "step; decompose - a genuine 4-factor decomposition of a non-identity affine. Distinct = distinct canonical-JSON digest."
@@ -656,16 +656,18 @@ def s_operand(draw, d):
     return draw(objs.transform_case(d=d, kinds=kinds))
 
 
-WIDE_RECEIVERS = ["Translation", "AlignmentTranslation", "Similarity", "AlignmentSimilarity"]
+WIDE_RECEIVERS = ["Translation", "AlignmentTranslation", "Similarity", "AlignmentSimilarity", "Rotation", "AlignmentRotation",
+                  "UniformScale", "AlignmentUniformScale", "AlignmentTranslation", "AlignmentRotation"]
 
 
 @st.composite
 def s_programs(draw):
     d = draw(st.sampled_from([2, 2, 3]))
     n = draw(st.integers(1, 8))
-    # 1 program in 5 starts from a class whose composes_inplace_with is wider than the class itself and then
-    # stays within its own sub-family, so that the ladder's "same class" branches see such receivers
-    family = draw(st.sampled_from([None] * 4 + WIDE_RECEIVERS))
+    # 1 program in 4 starts from a proper sub-family of Affine, is first composed IN PLACE with a wider affine-family
+    # operand (refused with ValueError unless the class's composes_inplace_with is wider than the class) and then
+    # stays within its own sub-family, so that the ladder's "same class" / as_non_alignment branches see the receiver
+    family = draw(st.sampled_from([None] * 30 + WIDE_RECEIVERS))
     steps = []
     for i in range(n):
         op = draw(st.sampled_from(PROG_OPS + ["before_inplace", "after_inplace"]))
@@ -679,7 +681,7 @@ def s_programs(draw):
             if family is not None and i == 0:
                 how = "new"
             if how == "new" and family is not None and (i == 0 or draw(st.booleans())):
-                kinds = ["Affine", "Rotation", "NonUniformScale", "UniformScale", "AlignmentAffine", "Similarity"] if i == 0 else [
+                kinds = ["Affine", "Rotation", "NonUniformScale", "UniformScale", "AlignmentAffine", "Similarity", "Translation"] if i == 0 else [
                     family, family.replace("Alignment", ""), "Alignment" + family.replace("Alignment", "")]
                 stp["new"] = draw(objs.homog_case(kind=draw(st.sampled_from(kinds)), d=d))
             elif how == "new":
